@@ -44,6 +44,15 @@ def run(rep, tier):
     r1(prog, rep)
     r2_r3(prog, rep)
     r4_r5(prog, rep)
+    # R3 replaces corner entries by "the X-point of the matching slot": which X-point sits in which
+    # slot of which region is a table fact (rule instances of C08.R1/R2: pins agree across joins)
+    rep.rule("R0", "premise: the X-point slots of every region, per topology, agree across all connections (C08.R1/R2)")
+    from ..report import Premise
+    from . import c08
+    from .. import tables
+    pr = Premise(rep, "R0", "C08")
+    for t in tables.all_topologies(prog):
+        c08.r1_r2(pr, t)
     rep.undecided("convergence and accuracy of point refinement; grids made with follow_perpendicular_recover")
     return __doc__
 
